@@ -704,6 +704,14 @@ func runC05(c *core.Ctx) {
 	// the signal helpers the stubs generate end in signalHandler.UpdateSignal (rule shared with C13)
 	c.Doc("C13.sequential", "a signal emitted through the generated helper is written to every subscriber, in order, by the emitting goroutine", 1)
 	ruleEmitSequential(c, "C13.sequential")
+	// the generated proxy encodes its arguments and decodes the returned value with the
+	// reflection codec (bus.NewParams / Proxy.Call2): what the caller gets back equals what
+	// the stub encoded only if that decoder gives every element storage of its own and
+	// handles every kind with the primitive of its type (rules shared with C03)
+	c.Doc("C03.composite", "reflection codec used by the generated proxies: slice/map = 32-bit count + that many elements (key before value); fresh storage per decoded element — rule shared with C03", 6)
+	ruleCompositeShapes(c)
+	c.Doc("C03.kinds", "reflection codec used by the generated proxies: every scalar kind/type has a case in encoder and decoder calling the primitive of its own type — rule shared with C03", 40)
+	ruleKindSwitches(c)
 }
 
 func stripFn(ts []etok) []etok {
